@@ -368,8 +368,8 @@ def exec_equal_size_simulation_case(ctx, case):
         for s in case["loads"]:
             plant.by_name[f"l{s}"].set_power_input_from_output(np.array(case["loads"][s], dtype=float))
         for c in spec["electric"]:
-            if c["kind"] == "genset":           # this interface decides who runs; how the running sets share the load is the caller's
-                plant.by_name[c["name"]].load_sharing_mode = np.zeros(n)
+            if c["kind"] == "genset":           # a fixed share left from an earlier calculation: the interface sets equal sharing (D142)
+                plant.by_name[c["name"]].load_sharing_mode = np.full(n + 1, 0.9)
         plant.electric.set_time_interval(np.full(n, 60.0), integration_method=IntegrationMethod.sum_with_time)
         run_simulation(plant.electric, EqualEngineSizeAllClosedSimulationInterface(swb2n_gensets={s: per[s - 1] for s in range(1, k + 1)}, rated_power_gensets=r,
                                                                                    n_bus_ties=k - 1, maximum_allowable_genset_load_percentage=f))
